@@ -67,6 +67,17 @@ Theorem C16_roundtrip_annotations : forall dg prefix v1 verbose tk key record bo
 Proof. exact ann_roundtrip. Qed.
 Print Assumptions C16_roundtrip_annotations.
 
+(* ... also when the cycle's shared patch already holds something under metadata.annotations from earlier operations
+   of the same cycle - a purge (null) of this very key, another value for it, other keys: the record stored LAST is what
+   is read back.  (A store that skips the write because "the object already has this value" loses to a pending purge.) *)
+Theorem C16_roundtrip_pending : forall dg prefix v1 verbose tk key record body anns patch,
+  nodup_keys (map fst anns) = true -> (forall k v, lookup k anns = Some v -> is_obj v = false) ->
+  pstore dg (PAnn prefix v1 verbose tk) key record body (pending anns) = Ok patch ->
+  pfetch dg (PAnn prefix v1 verbose tk) key (merge body patch)
+  = Ok (Some (JObj (if verbose then record else drop_nulls record))).
+Proof. exact ann_roundtrip_pending. Qed.
+Print Assumptions C16_roundtrip_pending.
+
 (* Isolation: storing a record leaves every annotation that is neither one of its own keys nor the marker, and
    every top-level field other than metadata, exactly as it was. *)
 Theorem C16_isolation_annotations : forall dg prefix v1 verbose tk key record body patch k',
